@@ -5,3 +5,4 @@ import LyModel.Props.C12
 #print axioms LyModel.JsonText.esc_eq_spec
 #print axioms LyModel.Props.C12.xml_document_faithful
 #print axioms LyModel.Props.C12.json_typing_rfc7951
+#print axioms LyModel.Props.C12.json_tree_refines_spec
